@@ -1,0 +1,18 @@
+//go:build verif
+
+// Contracts for package milestones, checked by /verif/govc (comment-only; compiled only with -tags verif).
+package milestones
+
+// Ghost state of the two channels: rxDone counts the completion events received from the event channel, msSent the
+// milestones sent, msClosed the closes of the milestone channel. A received event carries one of the declared event types.
+
+//@ func GenerateMilestonesFromEvents(eventChan *chan e.Event, milestoneChan *chan Milestone)
+//@   requires eventChan != nil && milestoneChan != nil
+//@   requires [C11:fresh] msClosed == 0 && msSent == 0 && rxDone == 0
+//@   ensures [C11:one-milestone-per-completed-stage] msSent == rxDone
+//@   ensures [C11:milestones-closed-once] msClosed == 1
+//@   loop 1 /* for event := range *eventChan */
+//@     invariant [C11] msSent == rxDone && msClosed == 0
+
+//@ func generateMilestone(operation Operation, start, end e.Event) Milestone
+//@   ensures [C11:fields] result.Operation == operation && result.Start == start.Time
